@@ -349,6 +349,45 @@ def run_idx_letters(_):
     return n, viols
 
 
+def run_shortcuts(_):
+    """The bundled KROME rates are written in KROME's shortcut variables (Te, lnTe, T32, invT, invTe, sqrTgas).  For
+    those rates to keep their value as functions of the gas temperature, the definitions the translator registers
+    for them must be KROME's own (krome_user_commons / the KROME manual): checked on five temperatures."""
+    import math
+
+    from ..ctext.cexpr import eval_double, parse_expr
+    from ..harness.render import reset_globals, quiet
+
+    reset_globals()
+    from naunet.reactions.kromereaction import KROMEReaction
+
+    KROMEReaction.initialize()
+    with quiet():
+        r = KROMEReaction("1,H,,,H,,,,NONE,NONE,1d0")
+    defs = dict(r.deriveds)
+    viols = []
+    n = 0
+    for T in (7.0, 113.0, 0.5, 2.0, 1e4):
+        te = T * 8.617343e-5
+        ref = {"Te": te, "lnTe": math.log(te), "T32": T / 300.0, "invT": 1.0 / T, "invTe": 1.0 / te, "sqrTgas": math.sqrt(T)}
+        env = {"Tgas": T}
+        for name, text in defs.items():
+            if name not in ref:
+                continue
+            n += 1
+            try:
+                env[name] = float(eval_double(parse_expr(text), env, {"log": math.log, "sqrt": math.sqrt, "exp": math.exp, "log10": math.log10}))
+            except Exception as e:
+                viols.append((f"C12:shortcut:unreadable:{name}", f"{name} = {text!r}: {e!r}", {"shortcuts": True}))
+                continue
+            if not same(env[name], ref[name], 1e-12):
+                viols.append((f"C12:shortcut:value:{name}", f"shortcut {name} = {text!r} gives {env[name]!r} at Tgas = {T}, KROME defines it as {ref[name]!r}", {"shortcuts": True}))
+        for name in ref:
+            if name not in defs:
+                viols.append((f"C12:shortcut:missing:{name}", f"shortcut {name} is not defined", {"shortcuts": True}))
+    return n, viols
+
+
 def run_near_miss(_):
     from ..harness.render import reset_globals, quiet
 
@@ -432,6 +471,8 @@ def run(ctx):
         rejected += r
         outcomes |= oc
         ctx.absorb(viols)
+    for n, viols in ctx.pmap(run_shortcuts, [0]):
+        ctx.absorb(viols)
     for n, viols in ctx.pmap(run_idx_letters, [0]):
         nidx = n
         ctx.absorb(viols)
@@ -449,6 +490,7 @@ def run(ctx):
     ctx.assumptions += [
         "reference semantics: own Fortran evaluator (mc/ref/fortranexpr.py): ** binds tightest and is right-associative, unary minus binds weaker than * and **, integer/integer truncates, integer**integer is integer",
         "C side: the emitted text is evaluated by E4 with C typing rules (int/int truncates, pow returns double) on 5 valuations with pairwise distinct values incl. a negative one",
+        "KROME's shortcut variables are free variables of an expression; for the bundled rates (functions of the gas temperature) their registered definitions must be KROME's: Te = Tgas*8.617343e-5, lnTe = log(Te), T32 = Tgas/300, invT = 1/Tgas, invTe = 1/Te, sqrTgas = sqrt(Tgas)",
         "abundance references: naunet's own index convention (trailing p='+', m='-') is assumed when deciding which species n(idx_X) names; the macro a species gets is the documented alias",
         "an expression the translator raises on counts as rejected (allowed by the property); it is never judged",
     ]
@@ -469,6 +511,9 @@ def run(ctx):
 
 
 def replay(ctx, case):
+    if case.get("shortcuts"):
+        ctx.absorb(run_shortcuts(0)[1])
+        return
     if case.get("idx_letters"):
         n, v = run_idx_letters(0)
         ctx.absorb([x for x in v if x[2]["expr"] == case["expr"]])
